@@ -301,7 +301,7 @@ def run(rec, cfg):
 
     attach_generators()
     rng = cfg.rng("c17")
-    n = cfg.scale(220, 12000)
+    n = cfg.scale(600, 15000)
     state = random.getstate()
     try:
         for i in range(n):
